@@ -24,5 +24,5 @@ for c in "$@"; do
 done
 rm -rf /verif/evidence; cp -r $L/evidence.keep /verif/evidence
 git -C /repo checkout -- . ; (cd /repo && cmake --build _build -j12 > /dev/null 2>&1)
-rm -rf /verif/replays/*/ 2>/dev/null
+for c in "$@"; do for f in $(grep -o 'replay=[^ ]*' $L/check_$c.log | cut -d= -f2 | sort -u); do rm -f "$f"; done; done   # only what these runs wrote
 cat $L/summary
